@@ -8,7 +8,8 @@ THEOREMS = ["Rink.Spec.C04.query_never_panics", "Rink.Spec.C04.evalQuery_noPanic
             "Rink.Spec.C04.applyBin_noPanic", "Rink.Spec.C04.applyFunc_noPanic", "Rink.Spec.C04.get_noPanic",
             "Rink.Spec.C04.pow_noPanic", "Rink.Spec.C04.div_noPanic", "Rink.Spec.C04.rem_noPanic",
             "Rink.Spec.C04.shl_noPanic", "Rink.Spec.C04.shr_noPanic",
-            "Rink.Spec.C13.next_progress"]
+            "Rink.Spec.C04Lex.next_progress", "Rink.Spec.C04Lex.next_fuel_irrelevant", "Rink.Spec.C04Lex.lexAll_fuel_irrelevant",
+            "Rink.Spec.C04Lex.lex_terminates_within_length", "Rink.Spec.C04Lex.lexAll_length"]
 
 
 def judge(text, impl, aux):
@@ -85,9 +86,10 @@ def run(c):
     ]
     if not c.build_harness():
         return
-    if not c.build_lean(["Rink.Props.C04", "Rink.Props.C13", "rinkmodel"]):
+    if not c.build_lean(["Rink.Props.C04", "Rink.Props.C04Lex", "rinkmodel"]):
         return
     c.audit("Rink.Props.C04", [t for t in THEOREMS if ".C04." in t])
+    c.audit("Rink.Props.C04Lex", [t for t in THEOREMS if ".C04Lex." in t])
     if c.thorough:
         c.leanchecker(["Rink.Model.Eval", "Rink.Model.Number", "Rink.Props.C04"])
     st = vlib.eval_stream(c, "gen-c04", independent=False, budget_ms=3000, judge=judge, group_start="reset", ans_taint=True, retry_pred=lambda a: a.get("class") == "cheap")
